@@ -195,6 +195,38 @@ def gen_C20(rng, tier, cfg):
             "chacha new 2 xchacha20 %s %s" % (key, gens.hx(gens.struct_bytes(rng, 24))),
             "chacha seek 2 u64 %d" % (2**38 - 256), "chacha applypat 2 1024 4"]
     stats["boundary_cases"] = nb + 3
+    # every VARIANT of every family under this configuration (the prefixes below need not reach all of them:
+    # a seeded change that altered only BLAKE-384/512 in the no-std build slipped through the prefixes)
+    ops.append("# C20 all variants under %s" % cfg)
+    nv = 0
+    for bits, b in (("224", 64), ("256", 64), ("384", 128), ("512", 128)):
+        for ln in (0, 3, b - 9, b, 2 * b + 5):
+            ops += ["blake new 0 %s" % bits, "blake updpat 0 %d %d" % (ln, rng.below(1000)), "blake fin 0"]
+        nv += 1
+    for bits in ("224", "256", "384", "512"):
+        for ln in (0, 3, 55, 64, 133):
+            ops += ["jh new 0 %s" % bits, "jh updpat 0 %d %d" % (ln, rng.below(1000)), "jh fin 0"]
+        nv += 1
+    for var, b in (("256-32", 32), ("512-64", 64), ("1024-128", 128), ("512-20", 64)):
+        for ln in (0, 3, b, 2 * b + 5):
+            ops += ["skein new 0 %s" % var, "skein updpat 0 %d %d" % (ln, rng.below(1000)), "skein fin 0"]
+        nv += 1
+    if not cfg.startswith("nostd-"):          # groestl-aesni has no no-std build (known finding B2)
+        for bits, b in (("224", 64), ("256", 64), ("384", 128), ("512", 128)):
+            for ln in (0, 3, b, 2 * b + 5):
+                ops += ["groestl new 0 %s" % bits, "groestl updpat 0 %d %d" % (ln, rng.below(1000)), "groestl fin 0"]
+            nv += 1
+    tfop = gens.tf_opname(cfg)
+    for size, n in (("256", 32), ("512", 64), ("1024", 128)):
+        k, x = gens.hx(gens.struct_bytes(rng, n)), gens.hx(gens.struct_bytes(rng, n))
+        t0, t1 = rng.below(2**64), rng.below(2**64)
+        ops += ["%s %s enc %s %d %d %s" % (tfop, size, k, t0, t1, x), "%s %s dec %s %d %d %s" % (tfop, size, k, t0, t1, x)]
+        nv += 1
+    for v in gens.VARIANTS:
+        ops += ["chacha new 3 %s %s %s" % (v, gens.hx(gens.struct_bytes(rng, 32)), gens.hx(gens.struct_bytes(rng, gens.NONCE[v]))),
+                "chacha applypat 3 300 5", "chacha seek 3 u64 %d" % rng.below(2**36), "chacha applypat 3 100 6"]
+        nv += 1
+    stats["variants_all"] = nv
     for fam in ("C01", "C04", "C06", "C09", "C05"):
         sub = cclib.XorShift(rng.next())
         o, _ = gens.GENS[fam](sub, "quick", cfg)
@@ -211,8 +243,10 @@ PROP = dict(
     gen=gen_C20,
     inventory=inventory,
     extra=extra,
-    cfgs_quick=["std-release", "nosimd-release", "nounroll-release"],
-    cfgs_thorough=["std-release", "nosimd-release", "nounroll-release", "std-debug", "nosimd-debug", "nounroll-debug"],
+    # `std` off is a lattice point too: compile-time dispatch, on a stock x86_64 target the plain SSE2 machine
+    # (a seeded change in a pre-SSSE3 code path changed BLAKE-512 only in that build and was missed without it)
+    cfgs_quick=["std-release", "nosimd-release", "nounroll-release", "nostd-sse2-release"],
+    cfgs_thorough=["std-release", "nosimd-release", "nounroll-release", "std-debug", "nosimd-debug", "nounroll-debug"] + list(cclib.NOSTD_CFGS),
     strength="partial",
     partial_note="compilation of each lattice point is observed with cargo, not proved; selection-correctness (exactly one "
                  "alternative active, optional deps guarded, result invariance across alternatives) is proved",
